@@ -58,7 +58,7 @@ func NewReader(data []byte, plan ReaderPlan, log *core.Log) (io.Reader, *SimRead
 		return seekableReader{s}, s
 	case "bufio":
 		n := plan.BufioSize
-		if n < 256 {
+		if n < 16 {
 			n = 4096
 		}
 		return bufio.NewReaderSize(s, n), s
